@@ -1,4 +1,5 @@
 import PGV.Props.C08
+import PGV.Props.Facts
 import PGV.Proofs.Frame
 
 /-!
@@ -102,5 +103,10 @@ theorem C12_pool_inv_init : PoolInv ([] : List (VObj RMap Fns)) [] := by
 example : (exec (RMap := Unit) (Fns := Unit) (Src := Unit) () (fun _ _ _ _ => []) freshObj [120] ⟨[], [], (), ()⟩).1 = some [120]
     ∧ (exec (RMap := Unit) (Fns := Unit) (Src := Unit) () (fun _ _ _ _ => []) freshObj [] ⟨[], [], (), ()⟩).1 = none := by
   decide
+
+/-- handed-out strings never alias a buffer that is written again: every zero-copy conversion in
+package `valid` is applied to a buffer made in the same function, after its last write, outside
+loops (re-extracted from the source on every run) -/
+theorem C12_no_aliasing : PGV.Expected.aliasOK PGV.Generated.aliasFacts = true := PGV.Props.Facts.T2_alias
 
 end PGV.Props.C12
